@@ -53,6 +53,7 @@ const (
 	opExt      // inside an operation that may block outside the scheduler (channel, select)
 	opResume   // back from such an operation, waiting for the turn
 	opCondWait // sync.Cond.Wait: enabled once signalled
+	opGosched  // runtime.Gosched of instrumented code: the other threads come first, in cyclic order
 )
 
 // Choice-point kinds.
@@ -281,6 +282,24 @@ func pick(me int32) int32 {
 	var list [MaxThreads]int32
 	n := int32(0)
 	meEnabled := enabled(me)
+	if g.threads[me].state == 1 && g.threads[me].op == opGosched {
+		// a yield inside a polling loop: every other enabled thread comes before the caller, starting
+		// with the one after it (round robin), so that the thread the loop waits for gets its turn
+		// under the default choices as well; the switch is free
+		for d := int32(1); d < g.nthreads; d++ {
+			j := (me + d) % g.nthreads
+			if enabled(j) {
+				list[n] = j
+				n++
+			}
+		}
+		if n > 0 {
+			if n == 1 || !g.cfg.Sched {
+				return list[0]
+			}
+			return list[choose(KindSched, n, false, me)]
+		}
+	}
 	if meEnabled {
 		list[0] = me
 		n = 1
@@ -663,6 +682,17 @@ func SelSend[T any](ch chan<- T) ChanRef { return ChanRef{chanPtr(ch), DirSend} 
 
 func chanPtr[C any](ch C) unsafe.Pointer { return *(*unsafe.Pointer)(unsafe.Pointer(&ch)) }
 
+// Gosched replaces runtime.Gosched in instrumented code (see opGosched in pick).
+//
+//go:norace
+func Gosched() {
+	if g.active == 0 {
+		runtime.Gosched()
+		return
+	}
+	point(opGosched, nil)
+}
+
 // Sleep replaces time.Sleep in instrumented code: under the scheduler a sleep is a point at which
 // other threads may run (latency is what the schedules model), not a wall-clock delay.
 //
@@ -672,7 +702,7 @@ func Sleep(d time.Duration) {
 		time.Sleep(d)
 		return
 	}
-	point(opYield, nil)
+	point(opGosched, nil) // a sleeping thread lets the others run first
 }
 
 // AP is placed around the callee of every sync/atomic operation: an atomic operation is a
